@@ -147,7 +147,8 @@ KANI_UNITS['tsops'] = {
 
 PROPERTIES = {
   'C02': {
-    'verus': ['tripcount', 'algebra', 'foldv', 'dce', 'ccpbin', 'loopguard', 'licm', 'csehoist', 'ivelim'],
+    'verus': ['tripcount', 'algebra', 'foldv', 'dce', 'ccpbin', 'loopguard', 'licm', 'csehoist', 'ivelim', 'ccploop', 'lvnscope', 'escape'],
+    'quick_witness': ['exec_optimizer'],
     'kani': ['fold', 'mirbin', 'induction'],
     'level': 'proof',
     'scope': 'arithmetic kernels only: constant folding, algebraic merging, operand reordering / comparison flipping, '
@@ -179,6 +180,7 @@ PROPERTIES = {
                    # the WebAssembly side of string constants: the data segment holds the constant's UTF-8 bytes
                    'strconst': ['wasm_global_string', 'print_byte_vec', 'byte_digit_to_char', 'lemma_wat_text_denotes_the_bytes',
                                 'lemma_decode_append', 'lemma_decode_enc_byte']},
+    'quick_witness': ['exec_semantics'],
     'kani': ['wasmops'],
     'level': 'proof',
     'scope': 'three kernels only: the WebAssembly instruction selected for each of the 16 operators (and ref.eq for reference '
@@ -189,6 +191,7 @@ PROPERTIES = {
   },
   'C04': {
     'verus': ['opsem', 'oparms', 'wasmlower', 'strconst'],
+    'quick_witness': ['exec_backends'],
     'kani': ['wasmops'],
     'level': 'proof',
     'scope': 'two kernels only: per operator, the TypeScript template and the WebAssembly instruction emitted by the two real '
@@ -295,6 +298,14 @@ STANDING_ASSUMPTIONS = {
                  'subst_nominal_type) are opaque: only "a failed test is reported" is proved; ErrorSet reduced to its error count'],
   'visgate': ['Verus/Z3; signature lookup (resolve_interface_cx + filter, resolve_function_signature, resolve_method_signature) is opaque; '
               'NominalType / MemberSignature / TypingContext reduced to the fields read (R6); == on names and module references is their PartialEq'],
+  'ccploop': ['Verus/Z3; R14 block of try_optimize_loop_for_some_iterations (the exit taken when the first iteration ends in a break); how the first '
+              'iteration is evaluated (optimize_stmts under the bindings of the initial values) and the other exits of the function are outside the block; '
+              'Statement reduced to Break + opaque rest (R6)'],
+  'lvnscope': ['Verus/Z3; LocalStackedContext is abstract (a stack of opaque scopes with the contracts of push_scope / pop_scope); optimize_stmts (the '
+               'recursive call) is a stub that writes only the innermost scope and logs the stack it was called under; the renaming of operands '
+               '(optimize_expr and the for_each closures, R3) only reads the table'],
+  'escape': ['Verus/Z3; vstd HashSet specification with obeys_key_model::<PStr>(); EscapeAnalysis reduced to its escape set (R6); visit_statements (nested '
+             'statements) only adds to the set; the other arms of visit_statement and the rewriting that uses the set are not under contract'],
   'usegates': ['Verus/Z3; R14 blocks of check_function_call, check_if_else, check_matching_pattern: what the enclosing functions do around the '
                'blocks (which arm is taken, the early return after the arity error) is not under contract; type_check_expression, check_block, '
                'check_if_else (recursive call), check_matching_pattern (recursive call) are opaque and only never retract an error; '
